@@ -255,6 +255,9 @@ fn emit_nodes_with_continuation(
     context: &EmitContext,
     fallback_continuation: Option<&str>,
 ) -> Result<EmittedContainer, CompilerError> {
+    // Every choice of a weave continues in a container inside the previous one
+    let _nesting = crate::nesting::enter_emit()?;
+
     let mut out = EmittedContainer::default();
     let mut next_choice_index = 0;
 
